@@ -162,6 +162,115 @@ def run(tier, seed):
                 rep.check(rid, not wrong and not incon, "every decoder of the registry (%d entries) is reached only with data_len >= its min_len" % len(ents), "%s:%s" % (ed.file, ed.line),
                           "; ".join(wrong[:4]) if wrong else None, function=ed.cname, obj="dispatch")
 
+        # ---- R3 slice discipline ------------------------------------------------------------------------------
+        # Functions that receive a window (data, data_len) into the header's raw bytes: every byte they read lies below data_len by the
+        # facts in force at the read - constant offsets need `data_len >= k + w`, offsets counted from the end need `data_len >= that
+        # distance`, loop indices need `i < data_len`.  What a caller guarantees about data_len (a guard at the call site) counts.
+        rid = rep.rule("R3", "slice discipline: a function given (data, data_len) reads data[k .. k+w) only under facts implying k + w <= data_len", 10)
+        from ..lin import Lin, linform
+        SLICES = [("process_level0_extended_area", 1, 2), ("process_level0_unix_area", 1, 2), ("process_level0_os9_area", 1, 2), ("check_l0_checksum", 0, 1),
+                  ("process_level0_path", 1, 2)]
+        WIDTHS = {"lha_decode_uint16": 2, "lha_decode_uint32": 4, "lha_decode_uint64": 8, "lha_decode_be_uint16": 2, "lha_decode_be_uint32": 4}
+
+        def len_lower_bound(fn, F, M, o, blk, depth=0):
+            """a lower bound of integer operand o at block blk from constants, facts and (for parameters) all call sites"""
+            if is_const(o):
+                return const_val(o)
+            best = 0
+            for f in F.at_block(blk):
+                if f[0] in ("uge", "ugt") and M.strip(f[1]) == M.strip(o) and is_const(f[2]):
+                    best = max(best, const_val(f[2]) + (1 if f[0] == "ugt" else 0))
+                if f[0] in ("ne",) and M.strip(f[1]) == M.strip(o) and is_const(f[2]) and const_val(f[2]) == 0:
+                    best = max(best, 1)
+            d = fn.defn(M.strip(o))
+            if d is not None and d.is_param and depth < 3:
+                sites = [(c.fn, c) for (caller, callee), cs in cg.sites.items() if callee == fn.name for c in cs]
+                if sites and fn.internal:
+                    lows = []
+                    for g, c in sites:
+                        Fg, Mg = ctx.facts(g), Matcher(g)
+                        arg = c.ops[d.index]
+                        lo = len_lower_bound(g, Fg, Mg, arg, c.block.id, depth + 1)
+                        # arg == X - Y with a fact X > Y (>= Y) at the call: arg >= 1 (>= 0)
+                        def atom(x, g=g):
+                            dx = g.defn(x)
+                            if dx is None:
+                                return None
+                            return "p%d" % dx.index if dx.is_param else ("v%d" % dx.id if dx.op in ("phi", "load", "call", "select") else None)
+                        la = linform(g, arg, atom)
+                        if la is not None:
+                            for f in Fg.at_block(c.block.id):
+                                if f[0] in ("ugt", "uge") and not is_const(f[1]):
+                                    lx, ly = linform(g, f[1], atom), linform(g, f[2], atom)
+                                    if lx is not None and ly is not None and lx.add(ly, -1) == la:
+                                        lo = max(lo, 1 if f[0] == "ugt" else 0)
+                        lows.append(lo)
+                    best = max(best, min(lows))
+            return best
+        nsl = 0
+        for fname, pi, li_ in SLICES:
+            fn = mod.fn(fname)
+            if fn is None:
+                continue            # folded into its caller by a refactoring: its reads are then the caller's (raw-data accesses, A-rawdata)
+            F, M = ctx.facts(fn), Matcher(fn)
+            P, L = fn.params[pi], fn.params[li_]
+
+            def symf(o, fn=fn, M=M, L=L):
+                so = M.strip(o)
+                if so == ("v", L.id):
+                    return "len"
+                dd = fn.defn(so)
+                if dd is not None and not dd.is_param and dd.op == "phi":
+                    return "i%d" % dd.id
+                return None
+
+            def basef(o, M=M, P=P):
+                return "data" if M.strip(o, ("bitcast",)) == ("v", P.id) else None
+            reads = []
+            for i in fn.insts():
+                if i.op == "load":
+                    reads.append((i, i.ops[0], i.size))
+                elif i.op == "call" and mod.callee_cname(i) in WIDTHS:
+                    reads.append((i, i.ops[0], WIDTHS[mod.callee_cname(i)]))
+                elif i.op == "call" and (i.callee or "").startswith("llvm.memcpy"):
+                    reads.append((i, i.ops[1], i.ops[2]))
+            from ..lin import ptr_form
+            for i, addr, w in reads:
+                pf = ptr_form(fn, addr, basef, symf)
+                if pf is None:
+                    continue            # not a read through the window
+                off = pf[1]
+                nsl += 1
+                wl = Lin(w) if isinstance(w, int) else linform(fn, w, symf)
+                lb = len_lower_bound(fn, F, M, ("v", L.id), i.block.id)
+                ok, why = False, None
+                if wl is not None:
+                    end = off.add(wl)                      # one past the last byte read, as a form over len and loop indices
+                    a_len, c0 = end.t.get("len", 0), end.c
+                    idx = [k for k in end.t if k != "len"]
+                    if not idx and a_len == 0:
+                        ok = c0 <= lb and off.c >= 0
+                        why = "needs data_len >= %d, facts give data_len >= %d" % (c0, lb)
+                    elif not idx and a_len == 1 and off.t.get("len", 0) == 1:
+                        ok = c0 <= 0 and -off.c <= lb        # data[len - d .. len - d + w): d >= w and len >= d
+                        why = "reads %d bytes at data_len - %d: needs data_len >= %d, facts give >= %d" % (w if isinstance(w, int) else -1, -off.c, -off.c, lb)
+                    elif not idx and a_len == 1 and off.is_const() and off.c == 0:
+                        ok = c0 <= 0                          # data[0 .. len)
+                        why = "reads data_len + %d bytes from the start" % c0
+                    elif len(idx) == 1 and end.t[idx[0]] == 1 and a_len == 0 and isinstance(w, int):
+                        # data[i + c .. i + c + w): needs the fact i + (c + w - 1) < len, i.e. i < len when c + w == 1
+                        pid = int(idx[0][1:])
+                        need = c0 - 1
+                        for f in F.at_block(i.block.id):
+                            if f[0] == "ult" and M.strip(f[2]) == ("v", L.id):
+                                lf = linform(fn, f[1], symf)
+                                if lf is not None and lf.t == {idx[0]: 1} and lf.c >= need:
+                                    ok = True
+                        why = "index phi%d + %d must be below data_len" % (pid, need)
+                rep.check(rid, ok, "%s: read of %s byte(s) at data%s" % (fname, w if isinstance(w, int) else "n", (" + %s" % off) if not off.is_const() or off.c else ""), i.where(),
+                          why, function=fname, obj="read@%s" % off)
+        rep.extra["slice_reads"] = nsl
+
         # ---- R4a realloc publication ------------------------------------------------------------------------
         rid = rep.rule("R4a", "after a successful realloc the new block is stored back to where the old pointer came from on every path to a return", 1)
         nre = 0
